@@ -19,8 +19,8 @@ func c11(c *core.Ctx) map[string]interface{} {
 	c.Assumptions = []string{"IMSI digits arrive as ASCII decimal characters, MCC has 3 digits (TS 23.003)"}
 	r11hex(c)
 	r11hexconst(c)
-	r11suci(c)
-	r11sib(c)
+	r11suciX(c)
+	r11sibX(c)
 	r11plmn(c)
 	r13pure(c)
 	return nil
